@@ -9,6 +9,10 @@
 
 package gbn
 
+import "time"
+
+var _ = time.Second
+
 // ---- contract prelude ------------------------------------------------------
 
 func old[T any](x T) T              { return x }
@@ -27,6 +31,12 @@ func fresh(x any) bool { return x != nil }
 func held(m any) bool   { return true }
 func rheld(m any) bool  { return true }
 func unheld(m any) bool { return true }
+
+// past: t is the zero time or a time that has been read from the clock
+func past(t time.Time) bool { return !t.After(time.Now()) }
+
+// has: key is present in the map (spec builtin; executable version)
+func has[K comparable, V any](m map[K]V, k K) bool { _, ok := m[k]; return ok }
 
 // elems / entries: frame designators for modifies clauses
 func elems[T any](s []T) int               { return len(s) }
@@ -207,9 +217,129 @@ func syinv(c *syncer) bool {
 //@   ensures implies(err == nil && b[0] == FIN, is[*PacketFIN](msg))
 //@   ensures implies(err == nil && b[0] == SYNACK, is[*PacketSYNACK](msg))
 
+//@ import "time"
+
 //@ func containsSequence(base, top, seq uint8) (r bool)
 //@   props C01 C07 C09
 //@   ensures r == inwin(base, top, seq)
+
+// ---- timeout manager (C20) ---------------------------------------------------
+
+// tminv: representation invariant of the timeout manager. In adaptive mode the
+// resend timeout is at least the one-second floor and the booster is based on it.
+func tminv(m *TimeoutManager) bool {
+	return m != nil && m.log != nil && boinv(m.resendBooster) && boinv(m.handshakeBooster) &&
+		m.resendBooster != m.handshakeBooster && !isnil(m.sentTimes) && m.timeoutUpdateFrequency > 0 &&
+		(m.useStaticTimeout ||
+			(m.resendTimeout >= minimumResendTimeout && m.resendBooster.originalTimeout == m.resendTimeout))
+}
+
+// boinv: invariant of a timeout booster: its last effective boost lies in the past.
+func boinv(b *TimeoutBooster) bool { return b != nil && past(b.lastBoost) }
+
+//@ func (b *TimeoutBooster) Boost()
+//@   props C20
+//@   requires boinv(b)
+//@   modifies b.lastBoost, b.boostCount
+//@   ensures boinv(b)
+//@   ensures b.boostCount == old(b.boostCount) || b.boostCount == old(b.boostCount)+1
+//@   ensures implies(b.boostCount == old(b.boostCount), b.lastBoost == old(b.lastBoost))
+//@   ensures implies(b.boostCount != old(b.boostCount) && b.withBoostFrequencyLimit,
+//@           b.lastBoost.Sub(old(b.lastBoost)) >= b.originalTimeout)
+
+//@ func (b *TimeoutBooster) Reset(newTimeout time.Duration)
+//@   props C20
+//@   requires boinv(b)
+//@   modifies b.lastBoost, b.boostCount, b.originalTimeout
+//@   ensures boinv(b) && b.boostCount == 0 && b.originalTimeout == newTimeout
+
+//@ func (b *TimeoutBooster) GetCurrentTimeout() (r time.Duration)
+//@   props C20
+//@   requires b != nil
+//@   ensures implies(b.boostCount == 0 && b.originalTimeout >= 0 && b.originalTimeout <= 1<<53 && b.boostPercent >= 0 && b.boostPercent <= 1000, r == b.originalTimeout)
+//@   ensures implies(b.boostCount >= 0 && b.boostCount <= 1<<16 && b.originalTimeout >= 0 && b.originalTimeout <= 1<<40 &&
+//@           b.boostPercent >= 0 && b.boostPercent <= 16, r >= b.originalTimeout)
+
+//@ func (m *TimeoutManager) updateResendTimeoutUnsafe(responseTime time.Duration)
+//@   props C20
+//@   requires tminv(m) && held(&m.mu)
+//@   modifies m.hasSetDynamicTimeout, m.resendTimeout, m.resendBooster.lastBoost, m.resendBooster.boostCount, m.resendBooster.originalTimeout
+//@   ensures tminv(m) && m.hasSetDynamicTimeout && m.resendTimeout >= minimumResendTimeout
+//@   ensures m.resendBooster.boostCount == 0 && m.resendBooster.originalTimeout == m.resendTimeout
+//@   ensures m.resendTimeout == time.Duration(m.resendMultiplier)*responseTime ||
+//@           (m.resendTimeout == minimumResendTimeout && time.Duration(m.resendMultiplier)*responseTime < minimumResendTimeout)
+
+//@ func (m *TimeoutManager) Sent(msg Message, resent bool)
+//@   props C20 C07
+//@   requires tminv(m)
+//@   requires implies(is[*PacketData](msg), as[*PacketData](msg) != nil)
+//@   modifies m.latestSentSYNTime, entries(m.sentTimes), m.handshakeBooster.boostCount, m.handshakeBooster.lastBoost,
+//@            m.resendBooster.boostCount, m.resendBooster.lastBoost
+//@   ensures tminv(m)
+//@   ensures implies(m.useStaticTimeout, m.latestSentSYNTime == old(m.latestSentSYNTime) &&
+//@           m.resendBooster.boostCount == old(m.resendBooster.boostCount) && m.handshakeBooster.boostCount == old(m.handshakeBooster.boostCount) &&
+//@           forall(0, 256, func(k int) bool { return has(m.sentTimes, uint8(k)) == old(has(m.sentTimes, uint8(k))) }))
+//@   ensures implies(!m.useStaticTimeout && is[*PacketData](msg) && resent, !has(m.sentTimes, as[*PacketData](msg).Seq))
+//@   ensures implies(!m.useStaticTimeout && is[*PacketData](msg) && !resent, has(m.sentTimes, as[*PacketData](msg).Seq))
+//@   ensures m.resendBooster.boostCount == old(m.resendBooster.boostCount) ||
+//@           (m.resendBooster.boostCount == old(m.resendBooster.boostCount)+1 && is[*PacketData](msg) && resent && !m.useStaticTimeout)
+//@   ensures implies(!(is[*PacketData](msg) && resent),
+//@           forall(0, 256, func(k int) bool { return implies(old(!has(m.sentTimes, uint8(k))) && !(is[*PacketData](msg) && as[*PacketData](msg).Seq == uint8(k)), !has(m.sentTimes, uint8(k))) }))
+
+//@ func (m *TimeoutManager) Received(msg Message)
+//@   props C20 C07
+//@   requires tminv(m)
+//@   requires implies(is[*PacketACK](msg), as[*PacketACK](msg) != nil)
+//@   modifies m.latestSentSYNTime, entries(m.sentTimes), m.responseCounter, m.hasSetDynamicTimeout, m.resendTimeout,
+//@            m.resendBooster.lastBoost, m.resendBooster.boostCount, m.resendBooster.originalTimeout
+//@   ensures tminv(m)
+//@   ensures implies(m.useStaticTimeout, m.resendTimeout == old(m.resendTimeout) && m.resendBooster.boostCount == old(m.resendBooster.boostCount) &&
+//@           m.resendBooster.originalTimeout == old(m.resendBooster.originalTimeout) && m.responseCounter == old(m.responseCounter))
+//@   ensures implies(is[*PacketACK](msg) && !old(has(m.sentTimes, as[*PacketACK](msg).Seq)),
+//@           m.resendTimeout == old(m.resendTimeout) && m.resendBooster.boostCount == old(m.resendBooster.boostCount) &&
+//@           m.resendBooster.originalTimeout == old(m.resendBooster.originalTimeout))
+//@   ensures implies(is[*PacketData](msg) || is[*PacketNACK](msg) || is[*PacketFIN](msg),
+//@           m.resendTimeout == old(m.resendTimeout) && m.resendBooster.boostCount == old(m.resendBooster.boostCount))
+//@   ensures (m.resendTimeout == old(m.resendTimeout) && m.resendBooster.originalTimeout == old(m.resendBooster.originalTimeout) &&
+//@            m.resendBooster.boostCount == old(m.resendBooster.boostCount)) ||
+//@           (!m.useStaticTimeout && m.resendTimeout >= minimumResendTimeout && m.resendBooster.boostCount == 0 &&
+//@            m.resendBooster.originalTimeout == m.resendTimeout)
+//@   ensures forall(0, 256, func(k int) bool { return implies(has(m.sentTimes, uint8(k)), old(has(m.sentTimes, uint8(k)))) })
+
+//@ func (m *TimeoutManager) GetResendTimeout() (r time.Duration)
+//@   props C20
+//@   requires tminv(m)
+//@   ensures implies(!m.useStaticTimeout && m.resendBooster.boostCount >= 0 && m.resendBooster.boostCount <= 1<<16 && m.resendTimeout <= 1<<40 &&
+//@           m.resendBooster.boostPercent >= 0 && m.resendBooster.boostPercent <= 16, r >= minimumResendTimeout)
+
+//@ func (m *TimeoutManager) GetHandshakeTimeout() (r time.Duration)
+//@   props C20 C10
+//@   requires tminv(m)
+
+//@ func (m *TimeoutManager) GetSendTimeout() (r time.Duration)
+//@   props C20
+//@   requires m != nil
+//@   ensures r == m.sendTimeout
+
+//@ func (m *TimeoutManager) GetRecvTimeout() (r time.Duration)
+//@   props C20
+//@   requires m != nil
+//@   ensures r == m.recvTimeout
+
+//@ func (m *TimeoutManager) GetFinSendTimeout() (r time.Duration)
+//@   props C20
+//@   requires m != nil
+//@   ensures r == m.finSendTimeout
+
+//@ func (m *TimeoutManager) GetPingTime() (r time.Duration)
+//@   props C20
+//@   requires m != nil
+//@   ensures r != 0
+
+//@ func (m *TimeoutManager) GetPongTime() (r time.Duration)
+//@   props C20
+//@   requires m != nil
+//@   ensures r != 0
 
 // ---- lemmas (ghost code, verified like any other function) -------------------
 
